@@ -374,6 +374,17 @@ Theorem C04_interface_law : forall (o : R3) (b : M3 R) (s : msurf R),
 Proof. exact interface_law. Qed.
 Print Assumptions C04_interface_law.
 
+(* the same law in the shape  sense (tr_surf t s) p = sense s (inv t p)  with boolean senses of
+   the written collections and inv t = to_aux O B (for linking with C05's abstract hypothesis) *)
+Theorem C04_interface_law_inv : forall (o : R3) (b : M3 R) (s : msurf R),
+  rows_orthonormal b -> iface_wf b s ->
+  exists coll0 coll,
+    convert RS s = Ok coll0 /\ tr_convert RS (tr12 o b) s = Ok coll /\
+    forall p, sense_neg_b coll p = sense_neg_b coll0 (to_aux o b p) /\
+              sense_pos_b coll p = sense_pos_b coll0 (to_aux o b p).
+Proof. exact interface_law_inv. Qed.
+Print Assumptions C04_interface_law_inv.
+
 (* conversion alone, every kind (adds torus and SQ to C04_convert_law) *)
 Theorem C04_convert_law_all : forall (s : msurf R), conv_wf_all s ->
   exists coll, convert RS s = Ok coll /\
